@@ -624,7 +624,9 @@ func (in *Interp) fmtVerb(verb byte, a Iface) Str {
 		if v == nil {
 			return Str{S: "<nil>"}
 		}
-		return opq("formatted pointer", true)
+		// the text of a non-nil pointer: "0x..." (at least three bytes), equal to the text
+		// of another pointer exactly when the pointers are the same
+		return Str{Opq: &Opaque{What: "formatted pointer", NotNilWord: true, Ptr: v}}
 	case Slice:
 		return opq("formatted slice", true)
 	case Struct:
